@@ -55,7 +55,19 @@ def _reject(text, value):
     """Raise the rejection; remember the exception OBJECT so that the oracle
     can ask for 'the original exception'.  Every other one carries no message
     at all (a legal way to raise ValueError)."""
-    exc = ValueError() if len(value) % 2 == 0 else ValueError(text)
+    k = len(value) % 3
+    if k == 0:
+        # a datatype may signal rejection with ANY ValueError -- including a
+        # DataConversionError of its own (a composed datatype re-using
+        # ZConfig's machinery); it is wrapped like every other one
+        import ZConfig
+        exc = ZConfig.DataConversionError(
+            ValueError("inner " + text), "inner-fragment",
+            (7, 1, "file:///sim/elsewhere.conf"))
+    elif k == 1:
+        exc = ValueError()
+    else:
+        exc = ValueError(text)
     w = WORLD
     if w is not None:
         w.raised.append(exc)
